@@ -187,7 +187,9 @@ CHECKS = {
     "C17": dict(
         text="Coq theorems for every reachable converter state (C17_reachable_wf: live threads/processes always point at profile entries carrying their ids; C17_entries_stable: entries never lose their "
              "identity): C17_comm_names_thread / _entry (a COMM names the live thread and its entry), C17_comm_names_process / _entry, C17_fork_thread (a FORK opens a fresh entry starting at the FORK time "
-             "and named like the forking thread), C17_exit_thread (an EXIT ends the entry at the EXIT time and retires the thread), C17_exit_main_ends_all (root of finding F-C17). Tied end to end: "
+             "and named like the forking thread), C17_exit_thread (an EXIT ends the entry at the EXIT time and retires the thread), C17_exit_main_ends_all (root of finding F-C17); frame condition: C17_reachable_keys (unique live keys), "
+             "C17_frozen_thread_entry / _process_entry (an entry no live thread or process points at is never modified again), C17_exit_thread_final (after its EXIT a thread's entry - end time, name - stays "
+             "exactly so under every continuation), C17_exit_main_final. Tied end to end: "
              "grammar-respecting histories -> perf.data -> samply import -> out.json, compared entry by entry (names, start/end times, main flag) with the model, and four model-free clauses of the "
              "property (last COMM shown, FORK/EXIT times as lifetimes, samples around an EXEC on different process entries, a forked thread shows the forking thread's name) decided on the output.",
         note="Trusted: as C01. The theorems are per-record effects (composition over a history is by the model run, checked end to end); the property-level oracle is partial. Default options only. "
